@@ -59,3 +59,22 @@ def run_kind(ctx, prop, gen, prm, rule, nontrivial=lambda r: True, langs=None, m
     if tool:
         raise vlib.ToolError("generator/validator disagree on the grammar: %s" % json.dumps(tool[0]["sig"], ensure_ascii=False)[:400])
     return res, obs
+
+
+def apply_conformance(ctx):
+    """binding of the interpreter models Lang_xx (S2) to the code: word-by-word apply over the full vocabulary, every step compared
+    (result, rendering, buffer, leading zeroes, frozen, flags, marker, separator/linking predicates). Drift only."""
+    q = ctx.quick()
+    prm = dict(allpairs=not q, pairs=1200, randn=600 if q else 20000, seed=ctx.seed % 100000)
+    req = generate(ctx, "Gen_Apply", prm)
+    os.rename(req, ctx.path("req_apply.ndjson"))
+    req = ctx.path("req_apply.ndjson")
+    obs = ctx.path("obs_apply.ndjson")
+    h = vlib.harness(ctx, "apply", req, obs)
+    if h["rc"] != 0:
+        raise vlib.ToolError("harness apply failed: " + h["stderr"][-500:])
+    res = vlib.validate(ctx, "Val_Apply", "Val.cfg", obs, min_lines=1200, heap="2500m")
+    ctx.extra["apply_steps_compared_with_model"] = res["events"]
+    ctx.validated -= res["events"]          # drift comparison, not a property judgement: not counted as validated observations
+    ctx.extra["apply_drift"] = len(res["drift"])
+    return res
